@@ -58,6 +58,11 @@ CLAIMS = {
    text="Theorem C19_footnotes: for every sequence of citation requests (arbitrary bytes) the footnotes are the distinct non-empty texts in order of first citation and every citation is [k] with k the position of its text (so equal texts share a number, numbering is 1..k, every footnote is cited). Tie: CLI runs (fakegit + real git) on names with spaces, quotes, backslashes, control and non-UTF-8 bytes, 300-byte names: JSON parsed and key sets compared with a plain-name twin; tables parsed for citation/footnote consistency.",
    note="Trusted: Coq kernel, harness, encoding/json (validity checked by parsing every output). Known finding: a name containing LF forges table lines.",
    technique="Coq proof on footnote model + output parsers over hostile names"),
+
+ "C14": dict(
+   text="Theorems on the model of the option handling (Options.v): C14_last_wins (last of --threshold/--verbose/--no-verbose/--critical), C14_cmdline_overrides / C14_config_when_absent / C14_config_iff_absent (each sizer.* key matters exactly when no option of its family is given), C14_equivalences. Tie: per family, {absent, valid, invalid} gitconfig x all option sequences up to length 2-3 through the CLI (fakegit serves git config --get): the run must equal, byte for byte, the run of the canonical spelling of the model's effective settings, or fail exactly when the model fails; documented equivalent spellings are run in pairs.",
+   note="Trusted: Coq kernel, extraction, harness, fakegit's emulation of `git config --get` exit codes; pflag's last-wins processing and strconv parsing are observed through the CLI, the model works on classified option tokens. --json-version validation was repaired (3481d3d).",
+   technique="Coq proof on option-state model + paired CLI runs"),
 }
 
 m = {
